@@ -13,6 +13,7 @@ EXPLANATION = (
     "parser, AIR, encoder, loader and the other handlers never evaluate it, so a program without the four mnemonics and "
     "without opcode 0xD behaves identically under both settings. R5 (TAB/EFF): flag parsing ('stack', empty words, unknown "
     "and repeated words) and single initialisation."
+    ' R3 also requires the flag test itself (not only the block behind it) to dominate every state write of the 0xD handler. R5 accepts Cell- or RefCell-based single initialisation and requires the empty feature word to be skipped (filter / continue), not to end the list.'
 )
 NOT_DECIDED = "nothing of substance (the uninitialised-flag case of check/watch is C07.R2)"
 
